@@ -139,12 +139,12 @@ func civilLeaf(c *Ctx, fr *evalFrame, v ssa.Value, leaf leafX) (interface{}, boo
 // statedMonth: one entry of a checker-made month table.
 type statedMonth struct {
 	year, month, days int64
-	first            int64 // Julian day number of the first day (the table holds it as noon of that day)
+	first             int64 // Julian day number of the first day (the table holds it as noon of that day)
 }
 
 func r01_6(c *Ctx, r *Report) {
 	const rule = "R01.6"
-	r.rule(rule, "Both constructors of a lunar date read the month table the same way. On a checker-made table of fifteen consecutive months (29 and 30 days, a leap month among them, two lunar years) NewLunarFromSolar is followed by the evaluator (its search as a table over the iteration number, the list of months as a model of container/list, civil dates as (day number, second of the day) with the checker's own calendar; no library code runs) for the first, second and last day of every month at 00:00:00, 12:00:00 and 23:59:59: the year, month and day it stores are the stated month's year and month and the day's position in it, the time of day is the civil date's. NewLunar is followed for the same days: the civil date it stores is the first day of the stated month moved on by day-1, with the given time of day.")
+	r.rule(rule, "Both constructors of a lunar date read the month table the same way. On a checker-made table of fifteen consecutive months (29 and 30 days, a leap month among them, two lunar years) NewLunarFromSolar is followed by the evaluator (its search as a table over the iteration number, the list of months as a model of container/list, civil dates as (day number, second of the day) with the checker's own calendar; no library code runs) for the first, second and last day of every month (thorough tier: every day) at 00:00:00, 12:00:00 and 23:59:59: the year, month and day it stores are the stated month's year and month and the day's position in it, the time of day is the civil date's. NewLunar is followed for the same days: the civil date it stores is the first day of the stated month moved on by day-1, with the given time of day.")
 	// the table: months of lunar 2019 (from its 11th month) and 2020 with a leap 4th month
 	var months []statedMonth
 	first := civilDayNo(2019, 11, 26)
@@ -213,12 +213,26 @@ func r01_6(c *Ctx, r *Report) {
 		return got
 	}
 	times := []int64{0, 12 * 3600, 23*3600 + 59*60 + 59}
+	daysOf := func(m statedMonth) []int64 {
+		if c.Tier != "thorough" {
+			return []int64{1, 2, m.days}
+		}
+		var out []int64
+		for d := int64(1); d <= m.days; d++ {
+			out = append(out, d)
+		}
+		return out
+	}
+	cases := 0
+	for _, m := range months {
+		cases += len(daysOf(m)) * len(times)
+	}
 	// civil -> lunar
 	if fn := c.Fn(r, rule, "calendar.NewLunarFromSolar"); fn != nil && len(fn.Params) == 1 {
 		var bad []string
 		n := 0
 		for k, m := range months {
-			for _, d := range []int64{1, 2, m.days} {
+			for _, d := range daysOf(m) {
 				for _, sec := range times {
 					in := absCivil{m.first + d - 1, sec}
 					var lm *listModel
@@ -270,14 +284,14 @@ func r01_6(c *Ctx, r *Report) {
 				}
 			}
 		}
-		r.check(len(bad) == 0 && n == len(months)*9, rule, "calendar.NewLunarFromSolar finds the month that contains the day", c.fnPos(fn), fmt.Sprintf("%d days and times on a table of %d months; deviations: %v", n, len(months), bad))
+		r.check(len(bad) == 0 && n == cases, rule, "calendar.NewLunarFromSolar finds the month that contains the day", c.fnPos(fn), fmt.Sprintf("%d days and times on a table of %d months; deviations: %v", n, len(months), bad))
 	}
 	// lunar -> civil
 	if fn := c.Fn(r, rule, "calendar.NewLunar"); fn != nil && len(fn.Params) == 6 {
 		var bad []string
 		n := 0
 		for k, m := range months {
-			for _, d := range []int64{1, 2, m.days} {
+			for _, d := range daysOf(m) {
 				for _, sec := range times {
 					params := []int64{m.year, m.month, d, sec / 3600, sec / 60 % 60, sec % 60}
 					var leaf leafX
@@ -333,7 +347,7 @@ func r01_6(c *Ctx, r *Report) {
 				}
 			}
 		}
-		r.check(len(bad) == 0 && n == len(months)*9, rule, "calendar.NewLunar places the day in the stated month", c.fnPos(fn), fmt.Sprintf("%d days and times on a table of %d months; deviations: %v", n, len(months), bad))
+		r.check(len(bad) == 0 && n == cases, rule, "calendar.NewLunar places the day in the stated month", c.fnPos(fn), fmt.Sprintf("%d days and times on a table of %d months; deviations: %v", n, len(months), bad))
 	}
 	r.floor(rule, 2)
 }
